@@ -3,7 +3,8 @@
 import json, os, sys
 sys.path.insert(0, os.path.dirname(os.path.abspath(__file__)))
 from props import PROPS
-from manifest_text import TEXT, NOT_APPLICABLE, HOOK_COMMITS
+from manifest_text import NOT_APPLICABLE, HOOK_COMMITS
+TEXT = {k: v['manifest'] for k, v in PROPS.items() if 'manifest' in v}
 
 ROOT = os.path.dirname(os.path.dirname(os.path.abspath(__file__)))
 ids = [json.loads(l)["id"] for l in open(os.path.join(ROOT, "properties.jsonl"))]
